@@ -313,6 +313,12 @@ func (e *Engine) set(c *Config, f *Frame, v ssa.Value, val Val) {
 	if iv, ok := val.(IntV); ok && !iv.F.isConst() {
 		val = IntV{c.normPos(iv.F)}
 	}
+	if e.isCounter(f.Fn, v) {
+		switch val.(type) {
+		case IntV, SetV, NZ:
+			val = Top{}
+		}
+	}
 	if e.isSignOnly(f.Fn, v) {
 		if bf, ok := val.(ByteFn); ok {
 			set := c.Bytes[0]
@@ -1520,7 +1526,10 @@ func (e *Engine) computeSignOnly(fn *ssa.Function) map[ssa.Value]bool {
 	type pend struct {
 		v  ssa.Value
 		ok bool
+		cc bool // compared with a constant (any comparison)
 	}
+	ccGood := map[ssa.Value]bool{} // class root -> compared with some constant
+	ccBad := map[ssa.Value]bool{}  // class root -> compared with a non-constant, or used as index / bound
 	var pends []pend
 	for _, b := range fn.Blocks {
 		for _, ins := range b.Instrs {
@@ -1541,7 +1550,7 @@ func (e *Engine) computeSignOnly(fn *ssa.Function) map[ssa.Value]bool {
 						}
 						k, isC := o.(*ssa.Const)
 						zero := isC && k.Value != nil && constant.Sign(constant.ToInt(k.Value)) == 0
-						pends = append(pends, pend{v, zero && (ins.Op == token.EQL || ins.Op == token.NEQ)})
+						pends = append(pends, pend{v, zero && (ins.Op == token.EQL || ins.Op == token.NEQ), isC})
 					}
 				} else if isIntegerType(ins.Type()) {
 					union(ins, ins.X)
@@ -1555,13 +1564,13 @@ func (e *Engine) computeSignOnly(fn *ssa.Function) map[ssa.Value]bool {
 					}
 				}
 			case *ssa.IndexAddr:
-				pends = append(pends, pend{ins.Index, false})
+				pends = append(pends, pend{ins.Index, false, false})
 			case *ssa.Slice:
 				if ins.Low != nil {
-					pends = append(pends, pend{ins.Low, false})
+					pends = append(pends, pend{ins.Low, false, false})
 				}
 				if ins.High != nil {
-					pends = append(pends, pend{ins.High, false})
+					pends = append(pends, pend{ins.High, false, false})
 				}
 			}
 		}
@@ -1576,7 +1585,29 @@ func (e *Engine) computeSignOnly(fn *ssa.Function) map[ssa.Value]bool {
 		} else {
 			bad[r] = true
 		}
+		if p.cc {
+			ccGood[r] = true
+		} else {
+			ccBad[r] = true
+		}
 	}
+	// counters: webs that are only ever compared with constants (and are neither positions nor results) — their
+	// exact value cannot matter for which bytes are consumed, so they are not tracked at all (every such comparison
+	// branches both ways); without this a counter like `exp` compared with 308 multiplies the abstract states
+	cc := map[ssa.Value]bool{}
+	for v := range parent {
+		r := find(v)
+		if ccGood[r] && !ccBad[r] && !(good[r] && !bad[r]) && !e.indexLike(fn, v) {
+			if u, ok := v.(*ssa.UnOp); ok && u.Op == token.MUL {
+				continue
+			}
+			cc[v] = true
+		}
+	}
+	if e.constCmpOnly == nil {
+		e.constCmpOnly = map[*ssa.Function]map[ssa.Value]bool{}
+	}
+	e.constCmpOnly[fn] = cc
 	out := map[ssa.Value]bool{}
 	for v := range parent {
 		r := find(v)
@@ -1768,4 +1799,11 @@ func (e *Engine) notePos(pos token.Pos) {
 		e.Checked = map[token.Pos]bool{}
 	}
 	e.Checked[pos] = true
+}
+
+
+// isCounter: v belongs to a web of integers that is only ever compared with constants (see computeSignOnly).
+func (e *Engine) isCounter(fn *ssa.Function, v ssa.Value) bool {
+	e.isSignOnly(fn, v) // computes both classifications
+	return e.constCmpOnly[fn][v]
 }
